@@ -1,57 +1,75 @@
 #!/usr/bin/env python3
 """Sensitivity self-test: applies each small property-breaking change from
-mutants/table.json to /repo (string replacement, restored with git checkout),
-runs the matching check and requires a VIOLATION. Usage:
-  tools/sensitivity.py [--tier quick] [--budget S] [id-or-property ...]"""
-import json, os, subprocess, sys, time
+mutants/table.json to a scratch git worktree of /repo (outside /repo and
+/verif), points the check driver at it (VERIF_REPO, -modfile build), runs the
+matching check and requires a VIOLATION. The worktree and its build output are
+removed afterwards. Usage:
+  tools/sensitivity.py [--tier quick] [--budget S] [--jobs N] [id-or-property ...]"""
+import json, os, subprocess, sys, time, shutil, tempfile
+from concurrent.futures import ThreadPoolExecutor
 
 HERE = os.path.dirname(os.path.dirname(os.path.abspath(__file__)))
-REPO = "/repo"
 
 def sh(cmd, **kw):
     return subprocess.run(cmd, shell=True, text=True, capture_output=True, **kw)
 
+def run_mutant(m, tier, budget, workers):
+    wt = tempfile.mkdtemp(prefix="mut-%s-" % m["id"], dir="/tmp")
+    os.rmdir(wt)
+    art = wt + "-art"
+    out = []
+    status = "MISSED"
+    try:
+        r = sh(f"git -C /repo worktree add --detach {wt} HEAD")
+        if r.returncode != 0:
+            return m["id"], "WORKTREE-FAILED", [r.stderr]
+        path = os.path.join(wt, m["file"])
+        src = open(path).read()
+        if src.count(m["old"]) != m.get("count", 1):
+            return m["id"], "STALE", [f'anchor occurs {src.count(m["old"])} times, expected {m.get("count",1)}']
+        open(path, "w").write(src.replace(m["old"], m["new"]))
+        b = sh(f"cd {wt} && go build ./... ")
+        if b.returncode != 0:
+            return m["id"], "NOCOMPILE", [b.stderr[:400]]
+        t = sh(f"cd {wt} && go test -vet=off -count=1 ./glow 2>&1 | tail -1")
+        if "ok" not in t.stdout:
+            return m["id"], "BASELINE-FAILS", [t.stdout.strip()]
+        caught = []
+        for p in m["props"]:
+            t0 = time.time()
+            env = f"VERIF_REPO={wt} VERIF_BUILD_DIR={art}/build VERIF_ARTIFACT_DIR={art}"
+            cmd = f"cd {HERE} && {env} bin/check {p} --tier {tier} --workers {workers}" + (f" --budget {budget}" if budget else "")
+            r = sh(cmd)
+            ok = r.returncode == 1 and "VIOLATION property=" + p in r.stdout
+            line = [l for l in r.stdout.splitlines() if l.startswith("violation:")][:1]
+            caught.append(ok)
+            out.append(f'{m["id"]} [{p}] {"CAUGHT" if ok else "MISSED (exit %d)" % r.returncode} in {time.time()-t0:.0f}s {line[0][:200] if line else r.stdout.strip().splitlines()[-1:]}')
+        status = "CAUGHT" if all(caught) else "MISSED"
+    finally:
+        sh(f"git -C /repo worktree remove --force {wt}")
+        shutil.rmtree(art, ignore_errors=True)
+        shutil.rmtree(wt, ignore_errors=True)
+    return m["id"], status, out
+
 def main():
     args = sys.argv[1:]
-    tier, budget = "quick", None
+    tier, budget, jobs = "quick", None, 2
     sel = []
     i = 0
     while i < len(args):
         if args[i] == "--tier": tier = args[i+1]; i += 2
         elif args[i] == "--budget": budget = args[i+1]; i += 2
+        elif args[i] == "--jobs": jobs = int(args[i+1]); i += 2
         else: sel.append(args[i]); i += 1
     table = json.load(open(os.path.join(HERE, "mutants", "table.json")))
-    if sh("git -C /repo status --porcelain --untracked-files=no").stdout.strip():
-        print("refusing: /repo has uncommitted changes"); sys.exit(2)
+    todo = [m for m in table if not sel or m["id"] in sel or any(p in sel for p in m["props"])]
+    workers = max(2, 16 // jobs)
     results = []
-    for m in table:
-        if sel and m["id"] not in sel and not any(p in sel for p in m["props"]):
-            continue
-        path = os.path.join(REPO, m["file"])
-        src = open(path).read()
-        if src.count(m["old"]) != m.get("count", 1):
-            print(f'{m["id"]}: anchor occurs {src.count(m["old"])} times, expected {m.get("count",1)} -> STALE'); results.append((m["id"], "STALE")); continue
-        try:
-            open(path, "w").write(src.replace(m["old"], m["new"]))
-            b = sh("cd /repo && go build ./... && go vet ./glow >/dev/null 2>&1; go build ./...")
-            if b.returncode != 0:
-                print(f'{m["id"]}: does not compile: {b.stderr[:300]}'); results.append((m["id"], "NOCOMPILE")); continue
-            if m.get("baseline", True):
-                t = sh("cd /repo && go test -vet=off -count=1 ./glow 2>&1 | tail -1")
-                if "ok" not in t.stdout:
-                    print(f'{m["id"]}: baseline suite fails with the change (not a valid mutant): {t.stdout.strip()}'); results.append((m["id"], "BASELINE-FAILS")); continue
-            caught = []
-            for p in m["props"]:
-                t0 = time.time()
-                cmd = f"cd {HERE} && bin/check {p} --tier {tier}" + (f" --budget {budget}" if budget else "")
-                r = sh(cmd)
-                ok = r.returncode == 1 and "VIOLATION property=" + p in r.stdout
-                line = [l for l in r.stdout.splitlines() if l.startswith("violation:")][:1]
-                caught.append(ok)
-                print(f'{m["id"]} [{p}] {"CAUGHT" if ok else "MISSED (exit %d)" % r.returncode} in {time.time()-t0:.0f}s {line[0] if line else r.stdout.strip().splitlines()[-1:]}')
-            results.append((m["id"], "CAUGHT" if all(caught) else "MISSED"))
-        finally:
-            sh("git -C /repo checkout -- .")
+    with ThreadPoolExecutor(max_workers=jobs) as ex:
+        for mid, status, out in ex.map(lambda m: run_mutant(m, tier, budget, workers), todo):
+            for l in out: print(l, flush=True)
+            if status not in ("CAUGHT", "MISSED"): print(mid, status, out, flush=True)
+            results.append((mid, status))
     print("\nsummary:", json.dumps(results))
     sys.exit(0 if all(r[1] == "CAUGHT" for r in results) else 1)
 
